@@ -62,13 +62,27 @@ def run(exe, mode, call_lines, sdir, tag, env=None, timeout=3600):
     e = dict(os.environ)
     e.setdefault("ASAN_OPTIONS", "detect_leaks=1:leak_check_at_exit=0:halt_on_error=1:exitcode=99:allocator_may_return_null=1:handle_abort=1")
     e.setdefault("UBSAN_OPTIONS", "halt_on_error=1:print_stacktrace=1:exitcode=98")
+    e.setdefault("TSAN_OPTIONS", "halt_on_error=1:exitcode=97:second_deadlock_stack=1")
     if env:
         e.update(env)
+    # sanitizer reports go to a log file: the interpreter redirects fd 2 while a call is running
+    logp = os.path.join(sdir, "san_%s" % tag)
+    for k in ("ASAN_OPTIONS", "UBSAN_OPTIONS", "TSAN_OPTIONS"):
+        if k in e and "log_path" not in e[k]:
+            e[k] += ":log_path=" + logp
     p = subprocess.run([exe, mode, cf, of], env=e, stdout=subprocess.PIPE, stderr=subprocess.PIPE, timeout=timeout)
     lines = open(of).read().split("\n") if os.path.exists(of) else []
     if lines and lines[-1] == "":
         lines.pop()
-    return lines, p.returncode, p.stderr.decode("utf-8", "replace")
+    err = p.stderr.decode("utf-8", "replace")
+    import glob
+    for f in sorted(glob.glob(logp + ".*")):
+        try:
+            err += open(f, errors="replace").read()
+            os.unlink(f)
+        except OSError:
+            pass
+    return lines, p.returncode, err
 
 
 def parse(out_line):
